@@ -272,3 +272,72 @@ def neighbour_pawn_guard(call, fn, F):
     ok = board_read and pawn_cmp and owner_cmp
     return ok, {"enclosing_conditions": len(conds), "board_read": board_read, "compares_with_Pawn": pawn_cmp,
                 "compares_owner": owner_cmp, "reads": reads[:4]}
+
+
+# ---------------------------------------------------------------------------
+# GameState bit layout (C02.R4, shared with C04/C05/C11)
+
+RIGHTS = ("white_king", "white_queen", "black_king", "black_queen")
+
+
+def gamestate_bit_facts(F):
+    """Case-fold the 13 accessors over all 256 byte values.
+    Returns list of (instance key, ok, fn path, found) records and the layout dict."""
+    recs = []
+    layout = gamestate_layout(F)
+    recs.append(("rights-on-distinct-bits", layout is not None and len(set(layout.values())) == 4
+                 and all(4 <= b <= 7 for b in layout.values()), "chess::gamestate::GameState", layout))
+    if layout is None:
+        return recs, None
+    BF = ("field", ("var", "self"), "bitfield")
+    for k in RIGHTS:
+        bit = layout[k]
+        for suffix, expect in (("true", lambda b: b | (1 << bit)), ("false", lambda b: b & ~(1 << bit) & 0xFF)):
+            path = "chess::gamestate::GameState::set_%s_castling_%s" % (k, suffix)
+            fn = F.fn(path)
+            try:
+                _, eff = hir.summarize_effects(fn, F)
+            except hir.Unsupported as e:
+                recs.append(("setter:%s_%s" % (k, suffix), False, path, "unsupported shape: %s" % e))
+                continue
+            nf = eff.get("bitfield")
+            bad = []
+            if nf is None:
+                bad = ["no store to bitfield"]
+            else:
+                for b in range(256):
+                    v = hir.fold(nf, {BF: ("lit", b)})
+                    if v[0] != "lit" or (v[1] & 0xFF) != expect(b):
+                        bad.append((b, hir.fmt(v, 60)))
+                        break
+            recs.append(("setter:%s_%s" % (k, suffix), not bad, path, bad or "bit %d %s for all 256 states" % (bit, "set" if suffix == "true" else "cleared")))
+    # en-passant getter / setter
+    fn = F.fn("chess::gamestate::GameState::en_passant")
+    nf = sym_fn(fn, F)
+    bad = [b for b in range(256) if hir.fold(nf, {BF: ("lit", b)}) != ("lit", b & 15)]
+    recs.append(("en_passant=low-nibble", not bad, fn["path"], bad[:3] or "b & 15 for all 256 states"))
+    fn = F.fn("chess::gamestate::GameState::set_en_passant")
+    try:
+        _, eff = hir.summarize_effects(fn, F)
+        nf = eff.get("bitfield")
+    except hir.Unsupported:
+        nf = None
+    bad = []
+    if nf is None:
+        bad = ["no store to bitfield / unsupported shape"]
+    else:
+        for b in range(256):
+            for v in range(9):
+                r = hir.fold(nf, {BF: ("lit", b), ("var", "value"): ("lit", v)})
+                if r[0] != "lit" or (r[1] & 0xFF) != ((b & 0xF0) | v):
+                    bad.append((b, v, hir.fmt(r, 60)))
+                    break
+            if bad:
+                break
+    recs.append(("set_en_passant-preserves-rights", not bad, fn["path"], bad or "(b & 0xF0) | v for all 256 states x v in 0..=8"))
+    # default state
+    fn = F.fn("<chess::gamestate::GameState as std::default::Default>::default")
+    nf = sym_fn(fn, F)
+    ok = nf[0] == "struct" and dict(nf[2]).get("bitfield") == ("lit", 8)
+    recs.append(("default=no-rights,no-en-passant", ok, fn["path"], hir.fmt(nf, 80)))
+    return recs, layout
